@@ -711,6 +711,75 @@ def pipeline_part(ctx):
                         'parents_short_of_markers': [gt.name(x) for x in sparse]}, limit=8)
 
 
+def removed_entry_unknown_gene_part(ctx):
+    """Audit 3, A7: an entry of the REMOVED level holding a gene unknown to the reference.  validate_marker_lookup /
+    assemble_query_data never consult that entry, but create_marker_cache_from_specified_markers refuses the file
+    (its reference-membership check runs over every key).  The PROPERTY compares two runs that are given the SAME
+    marker file: (A) drop_level on the stored taxonomy, (B) no drop on a statistics file whose taxonomy never had the
+    level.  Required: A and B behave alike (both raise the not-in-reference error); and with the removed level's
+    entries deleted from the file, (C) = B's taxonomy and (D) = A's configuration both succeed and agree bitwise at the
+    shared levels.  A difference between A and B (or C and D) would be a violation of C17."""
+    rng = ctx.rng
+    done = 0
+    for k in range(ctx.n(40, 400)):
+        if done >= ctx.n(3, 20):
+            break
+        sc = pipeline.gen_scenario(rng, max_levels=4, max_leaves=8, n_cells=rng.randrange(2, 6))
+        gt = sc.tree
+        if len(gt.levels) < 3:
+            continue
+        li = rng.randrange(0, len(gt.levels) - 1)
+        lv = gt.levels[li]
+        nodes_lv = [n for n, _ in gt.model[li]]
+        node = rng.choice(nodes_lv)
+        key = f'{lv}/{gt.name(node)}'
+        m = ctx.model([(1004, [gt.model, li])])[0]
+        if m[0] != 0:
+            continue
+        done += 1
+        var = paired.base_var(rng, sc, factor=rng.choice([0.5, 1.0]))
+        mk = {k2: list(v) for k2, v in sc.markers.items()}
+        mk[key] = list(mk.get(key, [])) + [777]          # g777: neither in the reference nor in the query
+        mk_f = {k2: v for k2, v in mk.items() if not k2.startswith(lv + '/')}
+        rlevels = [x for x in gt.levels if x != lv]
+        rdata = model_to_data(rlevels, m[1], gt)
+        va = dict(var); va['drop_level'] = lv
+        ra = paired.run_once(ctx, sc, f'ua{k}', markers=mk, **va)
+        rb = paired.run_once(ctx, sc, f'ub{k}', markers=mk, tree_data=rdata, **var)
+        rc = paired.run_once(ctx, sc, f'uc{k}', markers=mk_f, tree_data=rdata, **var)
+        rd = paired.run_once(ctx, sc, f'ud{k}', markers=mk_f, **va)
+        ctx.count(('c17-removed-entry-unknown-gene', k, lv), nontrivial=True)
+        not_in_ref = lambda r: (not r['ok']) and 'not in the reference dataset' in str(r['error'])     # noqa
+        ctx.dist('removed_entry_unknown_gene',
+                 f'same file: drop {"raises" if not ra["ok"] else "ok"} / never-had-level {"raises" if not rb["ok"] else "ok"}; '
+                 f'entries deleted: drop {"ok" if rd["ok"] else "raises"} / never-had-level {"ok" if rc["ok"] else "raises"}')
+        dd = {'kind': 'paired-run', 'mode': 'removed-entry-unknown-gene', 'level': lv, 'key': key, 'tree': gt.data,
+              'markers': mk, 'cell_ids': sc.cell_ids, 'query': sc.query.tolist(), 'query_genes': sc.query_genes,
+              'ref_genes': sc.ref_genes, 'means': {str(a): b for a, b in sc.means.items()}, 'config': var,
+              'errors': [str(r['error'])[:200] for r in (ra, rb, rc, rd)]}
+        if ra['ok'] != rb['ok'] or (not ra['ok'] and not_in_ref(ra) != not_in_ref(rb)):
+            dd['class'] = 'c17-removed-entry-unknown-gene-runs-differ'
+            ctx.violation(f'a gene unknown to the reference under the removed level {lv}: the dropping run and the run on the '
+                          f'reduced reference, given the SAME marker file, do not behave alike: {dd["errors"][:2]}', dd)
+            continue
+        if ra['ok']:
+            dd['class'] = 'corr:Markers.create_cache'
+            ctx.violation('the marker cache accepted a gene unknown to the reference (model: E_NOT_IN_REF)', dd, no_input=True)
+            continue
+        if rc['ok'] != rd['ok']:
+            dd['class'] = 'c17-removed-entry-unknown-gene-runs-differ'
+            ctx.violation(f'with the entries of the removed level {lv} deleted, the two runs do not behave alike: {dd["errors"][2:]}', dd)
+            continue
+        if rc['ok']:
+            a, b = paired.by_cell(rd), paired.by_cell(rc)
+            for cid in sc.cell_ids:
+                diff = paired.compare_records(a[cid], b[cid], rlevels, bitwise=True)
+                if diff:
+                    dd['class'] = 'c17-drop'
+                    ctx.violation(f'drop {lv} (file without the removed level\'s entries): cell {cid}: {diff}', dd)
+                    break
+
+
 def borrowed_from_ancestor(ra, gt, li, sparse):
     """did run A's marker reconciliation patch a sparse parent of level li+1 with the list of a proper
     ancestor (not only the root's), and was a cell routed through such a parent?  (from the log and results)"""
@@ -887,8 +956,16 @@ def run(ctx):
                 'every level incl. the removed one (generator of C08) vs reduce + RunMappingKeys.rekey + '
                 'Markers.validate_marker_lookup (tag 1707), and the same real call without the entries of the removed level '
                 '(same outcome, same entries at the parents of the reduced tree); non-trivial = >= 3 levels and the removed '
-                'level has entries')
+                'level has entries. (v) a gene unknown to the reference under a key of the removed level: the dropping run and the '
+                'run on the reduced reference with the SAME file both raise the not-in-reference error; with the removed '
+                'level\'s entries deleted both succeed and agree bitwise')
     ctx.assumptions += [
+        'the property compares two runs that are given the SAME marker file (the dropping run, and the run on a reference '
+        'whose taxonomy never had the level): an entry of the removed level that makes create_marker_cache_from_specified_'
+        'markers fail (a gene unknown to the reference) makes BOTH fail alike - checked on the real run_mapping '
+        '(removed_entry_unknown_gene_part); with the entries deleted on one side only the runs differ '
+        '(Props/C17.v c17_drop_equals_never_had_level_refuted; c17_drop_named_equals_reduced_filtered assumes cache '
+        'success of both) - not a finding, the property does not make that comparison',
         'marker-table keys: the code uses the strings level_name/node, which survive drop_level; the model uses positions in '
         'the tree that is queried, the table of the file (stored positions) is translated by RunMappingKeys.rekey '
         '(a name that is not a level of the reduced tree -> index >= its number of levels)',
@@ -903,6 +980,7 @@ def run(ctx):
     election_part(ctx)
     c17_keys.keys_part(ctx)
     pipeline_part(ctx)
+    removed_entry_unknown_gene_part(ctx)
 
 
 def replay(ctx, rec):
